@@ -10,7 +10,8 @@
 (* AttachFirstRoot = TRUE models the mutation "attach the path to the first root   *)
 (* reached" and must produce a counterexample.                                     *)
 EXTENDS QuickShiftRef, PeriodicRef, TLC
-CONSTANTS N, Coords, Cuts, Mode, ShellK, AttachFirstRoot, Cell     \* Cell = <<>>: free space, else minimum image
+CONSTANTS N, Coords, Cuts, Mode, ShellK, AttachFirstRoot, Cell,    \* Cell = <<>>: free space, else minimum image
+          Staged    \* TRUE: points, weights and cut-offs are chosen one point at a time by an action (for tlc -simulate on larger N)
 CellNone == <<>>
 Cell44 == <<4, 4>>
 Cell35 == <<3, 5>>
@@ -18,8 +19,8 @@ Pt(p) == <<p[1], p[2]>>
 DD(p, q) == PD2(Pt(p), Pt(q), Cell)
 Item == 1..N
 NONE == 0
-VARIABLES P, W, cut, i, path, cur, root, pc, dm, gab   \* dm, gab: distance matrix / Gabriel graph, computed once in Init
-vars == <<P, W, cut, i, path, cur, root, pc, dm, gab>>
+VARIABLES P, W, cut, i, path, cur, root, pc, dm, gab, placed   \* dm, gab: distance matrix / Gabriel graph, computed once
+vars == <<P, W, cut, i, path, cur, root, pc, dm, gab, placed>>
 D2(a, b) == dm[a][b]
 DM == dm
 idmin(a) == SetMin(NNset(N, DM, a))                          \* np.argmin: first nearest
@@ -38,32 +39,47 @@ ScanG(a, nb, j, best, dmin) == IF j > N THEN best
 GsNext(a) == ScanG(a, Shell(N, Gab, a, ShellK), 1, a, 1000000)
 NextOf(a) == IF Mode = "cut" THEN QsNext(a) ELSE GsNext(a)
 Perms == {f \in [Item -> Item] : \A a, b \in Item : a # b => f[a] # f[b]}
-Init == /\ P \in [Item -> Coords \X Coords] /\ W \in Perms
-        /\ cut \in (IF Mode = "cut" THEN [Item -> Cuts] ELSE {[a \in Item |-> 0]})
-        /\ dm = [a \in Item |-> [b \in Item |-> DD(P[a], P[b])]]
-        /\ gab = (IF Mode = "cut" THEN <<>> ELSE GabrielMay(N, [a \in Item |-> [b \in Item |-> DD(P[a], P[b])]]))
-        /\ i = 1 /\ path = <<>> /\ cur = NONE /\ root = [a \in Item |-> NONE] /\ pc = "outer"
+DMof(Q) == [a \in Item |-> [b \in Item |-> DD(Q[a], Q[b])]]
+Init == IF Staged
+        THEN /\ P = [a \in Item |-> <<0, 0>>] /\ W = [a \in Item |-> 0] /\ cut = [a \in Item |-> 0] /\ placed = 0
+             /\ dm = <<>> /\ gab = <<>>
+             /\ i = 1 /\ path = <<>> /\ cur = NONE /\ root = [a \in Item |-> NONE] /\ pc = "place"
+        ELSE /\ P \in [Item -> Coords \X Coords] /\ W \in Perms
+             /\ cut \in (IF Mode = "cut" THEN [Item -> Cuts] ELSE {[a \in Item |-> 0]})
+             /\ dm = DMof(P)
+             /\ gab = (IF Mode = "cut" THEN <<>> ELSE GabrielMay(N, DMof(P)))
+             /\ placed = N
+             /\ i = 1 /\ path = <<>> /\ cur = NONE /\ root = [a \in Item |-> NONE] /\ pc = "outer"
+\* staged generation: one point (position, distinct weight, cut-off) per step, then the matrices are computed
+Place(x, y, w, c) == /\ pc = "place" /\ placed < N /\ \A a \in 1..placed : W[a] # w
+                     /\ LET P2 == [P EXCEPT ![placed + 1] = <<x, y>>] IN
+                        /\ P' = P2 /\ W' = [W EXCEPT ![placed + 1] = w] /\ cut' = [cut EXCEPT ![placed + 1] = c]
+                        /\ placed' = placed + 1
+                        /\ IF placed + 1 = N
+                           THEN /\ dm' = DMof(P2) /\ gab' = (IF Mode = "cut" THEN <<>> ELSE GabrielMay(N, DMof(P2))) /\ pc' = "outer"
+                           ELSE UNCHANGED <<dm, gab, pc>>
+                     /\ UNCHANGED <<i, path, cur, root>>
 Outer == /\ pc = "outer" /\ i <= N
          /\ IF root[i] # NONE THEN i' = i + 1 /\ UNCHANGED <<path, cur, root, pc>>
             ELSE path' = <<i>> /\ cur' = i /\ pc' = "while" /\ UNCHANGED <<i, root>>
-         /\ UNCHANGED <<P, W, cut, dm, gab>>
+         /\ UNCHANGED <<P, W, cut, dm, gab, placed>>
 While == /\ pc = "while"
          /\ IF cur = root[cur] THEN pc' = "assign" /\ UNCHANGED <<root, path, cur>>
             ELSE LET nx == NextOf(cur) r2 == [root EXCEPT ![cur] = nx] IN
                  /\ root' = r2
                  /\ IF r2[nx] # NONE THEN pc' = "assign" /\ UNCHANGED <<path, cur>>
                     ELSE path' = Append(path, nx) /\ cur' = nx /\ pc' = "while"
-         /\ UNCHANGED <<P, W, cut, i, dm, gab>>
+         /\ UNCHANGED <<P, W, cut, i, dm, gab, placed>>
 Assign == /\ pc = "assign"
           /\ LET r == IF AttachFirstRoot THEN root[cur] ELSE root[root[cur]] IN
              root' = [a \in Item |-> IF a \in RangeOf(path) THEN r ELSE root[a]]
           /\ i' = i + 1 /\ pc' = "outer" /\ path' = <<>> /\ cur' = NONE
-          /\ UNCHANGED <<P, W, cut, dm, gab>>
-Next == Outer \/ While \/ Assign
+          /\ UNCHANGED <<P, W, cut, dm, gab, placed>>
+Next == Outer \/ While \/ Assign \/ (\E x \in Coords, y \in Coords, w \in Item, c \in (IF Mode = "cut" THEN Cuts ELSE {0}) : Place(x, y, w, c))
 Spec == Init /\ [][Next]_vars
 AllowedRef(a) == IF Mode = "cut" THEN AllowedCut(N, DM, W, cut, a) ELSE AllowedGab(N, DM, W, Gab, ShellK, a)
 Done == i > N /\ pc = "outer"
 Correct == Done => (Valid(N, root, AllowedRef) /\ HeaviestIsCenter(N, W, root) /\ Idempotent(N, root))
 \* the code's Gabriel graph (strict <) lies between Must and May
-GabrielOK == Mode = "cut" \/ (GraphBetween(N, Gab, GabrielMust(N, DM), GabrielMay(N, DM)) /\ GSymmetric(N, Gab))
+GabrielOK == Mode = "cut" \/ pc = "place" \/ (GraphBetween(N, Gab, GabrielMust(N, DM), GabrielMay(N, DM)) /\ GSymmetric(N, Gab))
 ============================================================================
